@@ -298,3 +298,23 @@ def classify(case):
     labs = ["T=" + t for t in case["T"]]
     labs.append("not-applicable" if v is None else ("changed" if v[0] != v[1] else "unchanged"))
     return labs
+
+
+# the laws the theorems assume of the label decoder (abstract parameter `puny` of the model), on the
+# real decode_punycode_hostname, over the enumerated class of ACE labels, on every run (shared:
+# harness/punylaws.py; a failure is reported as a broken obligation `law`)
+RUN_OBLIGATION_GROUPS = ('PunyLaws', 'PunyClean')
+RUN_OBLIGATIONS = "%s of the real label decoder over the enumerated ACE label class of harness/punylaws.py" % " + ".join(RUN_OBLIGATION_GROUPS)
+
+
+TRUSTED = list(TRUSTED) + [
+    "the label decoder `puny` = the real decode_punycode_hostname on one label (harness/punylaws.py: decode_label; the per-case tables come from it); "
+    + RUN_OBLIGATIONS + ": hypotheses of the theorems, evaluated on every run (broken obligation `law` when one fails), not proved of CPython's idna codec"
+]
+
+
+def run_obligations(tier):
+    import punylaws
+
+    return punylaws.run_obligations(RUN_OBLIGATION_GROUPS, tier)
+
